@@ -4,7 +4,7 @@
    implementation's returned points (step of one model pass, KKT residuals, objective against the
    constructed optimum). *)
 From Coq Require Import List Arith ZArith QArith Qabs Bool.
-From TLV Require Import Base.Ops Base.PyList Base.Tensor Model.Nnls Corr.Common.
+From TLV Require Import Base.Ops Base.PyList Base.Tensor Model.Nnls Model.NnlsEntry Corr.Common.
 Import ListNotations.
 
 Notation qmat := (list (list Q)).
@@ -60,12 +60,17 @@ Inductive case :=
 | CFista (id : nat) (UtM UtU : qmat) (n : nat) (nonneg : bool) (sp rd lr tol eps : Q) (x0 : qmat) (betas : list Q) (impl : qmat)
 (* fista with UtU = [A, B] (list branch), unknown r1 x r2 *)
 | CFista2 (id : nat) (UtM A B : qmat) (r2 : nat) (nonneg : bool) (sp rd lr tol eps : Q) (x0 : qmat) (betas : list Q) (impl : qmat)
+(* the entry point fista with its argument handling (Model/NnlsEntry.v): sparsity_coef / ridge_coef / lr / x as the caller
+   passes them (None = the Python value None), sigma = numpy's 2-norm of UtU, tol = 0 (no stopping decision is taken);
+   impl: Err = the call raised TypeError / ValueError *)
+| CFistaCall (id : nat) (UtM UtU : qmat) (n : nat) (nonneg : bool) (sp rd lr : option Q) (sigma eps : Q) (x0 : option qmat)
+             (betas : list Q) (impl : res qmat)
 | CAset (id : nat) (Utm : list Q) (UtU : qmat) (x0 : option (list Q)) (iters : nat) (tol : Q) (impl : option (list Q))
 | CAdmm (id : nat) (UtM UtU x dual : qmat) (m r : nat) (implx implsplit : qmat).
 
 Definition ident (c : case) : nat :=
   match c with CHals i _ _ _ _ _ _ _ _ _ _ => i | CConv i _ _ _ _ _ _ _ _ _ _ _ _ _ => i
-             | CFista i _ _ _ _ _ _ _ _ _ _ _ _ => i | CFista2 i _ _ _ _ _ _ _ _ _ _ _ _ _ => i | CAset i _ _ _ _ _ _ => i | CAdmm i _ _ _ _ _ _ _ _ => i end.
+             | CFista i _ _ _ _ _ _ _ _ _ _ _ _ => i | CFista2 i _ _ _ _ _ _ _ _ _ _ _ _ _ => i | CFistaCall i _ _ _ _ _ _ _ _ _ _ _ _ => i | CAset i _ _ _ _ _ _ => i | CAdmm i _ _ _ _ _ _ _ _ => i end.
 
 Definition atol : Q := 1 # 1000000000.
 Definition rtol : Q := 1 # 1000000000.
@@ -123,6 +128,12 @@ Definition agree (c : case) : bool :=
     || (negb (all_clear (fst tr))
         && existsb (fun k => mclose atol rtol (fista2 Qops UtM A B r2 nonneg sp rd lr 0 eps x0 (firstn k betas)) impl)
                    (rev (seq 0 (S (length betas)))))
+  | CFistaCall _ UtM UtU n nonneg sp rd lr sigma eps x0 betas impl =>
+    match fista_call Qops UtM UtU n nonneg sp rd lr sigma 0 eps x0 betas, impl with
+    | Err, Err => true
+    | Ok W, Ok Wi => mclose atol rtol W Wi
+    | _, _ => false
+    end
   | CAset _ Utm UtU x0 iters tol impl =>
     match active_set_nnls Qops (gauss_solve Qops) (fun x => x) Utm UtU tol x0 iters, impl with
     | None, None => true
